@@ -499,9 +499,26 @@ func (e *Engine) timeNs(v Value) *Term {
 
 func (e *Engine) now(s *State) *Term {
 	ts := e.ts
+	if s.frozen && s.clock != nil {
+		return s.clock
+	}
 	s.nclock++
 	t := ts.Var(fmt.Sprintf("now!%d", s.nclock), 64)
 	e.registerVar(t)
+	if s.model != nil {
+		// extend the cached model with a consistent value for the new instant
+		nm := make(Model, len(s.model)+1)
+		for k, v := range s.model {
+			nm[k] = v
+		}
+		var v uint64 = 1 << 40
+		if s.clock != nil {
+			memo := map[int]uint64{}
+			v = ts.Eval(s.clock, s.model, memo)
+		}
+		nm[t.name] = v
+		s.model = nm
+	}
 	if s.clock == nil {
 		e.pcAdd(s, ts.Cmp(OpSle, ts.Const(64, 1<<40), t))
 	} else {
@@ -774,6 +791,11 @@ func (e *Engine) intrinsic(fi *FnInfo) *Native {
 	case "vfHarnessGoroutine":
 		return simple(func(e *Engine, s *State, gi int, args []Value) Value {
 			s.wg(gi).harness = true
+			return nil
+		})
+	case "vfFreezeClock":
+		return simple(func(e *Engine, s *State, gi int, args []Value) Value {
+			s.frozen = args[0].(*Term).IsTrue()
 			return nil
 		})
 	case "vfArmTimers":
